@@ -59,7 +59,10 @@ META = {
     'rule': ('documents: 40% schema-instantiated (identifier keys, sibling objects with equal key sets, per-key stable scalar kinds incl. date/time/'
              'datetime/number/bool-looking strings, nulls, empty containers), 35% heterogeneous (random values, mixed arrays, nested arrays), 25% hostile keys '
              '(keywords, digits-first, punctuation, unicode, case-variant duplicates, names the generated module uses, repeated names at different paths); '
-             'depth <= 4; x {force_strings} x {experimental}.  CLI: invalid inputs (syntax errors, scalar roots, unreadable paths, generation-raising '
+             'depth <= 4; plus fixed families in every run: every scalar root (falsy and truthy; generation must raise), an exhaustive null-placement family '
+             '(null in every subset of sibling positions of list -> object -> list -> object chains, leaf = object / list / list of objects / date / int), every plural, irregular '
+             'and uncountable noun of the singularize tables as a list-of-objects key (twice per process); x {force_strings} x {experimental}.  Every generation is repeated in one '
+             'process in reversed order and a sample (plural keys first) in its own fresh interpreter: the three texts must be identical.  CLI: invalid inputs (syntax errors, scalar roots, unreadable paths, generation-raising '
              'documents) and valid documents with a pre-existing output file.  distinct = distinct (document, flags); non-trivial = the document has '
              '>= 2 objects or an array of objects or a classified string.'),
     'trusted_base': ['model coq/model/SchemaGen.v (hand transcription of wizard_cli/schema.py and cli.py; validated by the correspondence run)',
